@@ -41,7 +41,10 @@ func (h *HostLog) Func(name string) (interface{}, bool) {
 	case "fail":
 		return func(x interface{}) (interface{}, error) { h.add("fail", x); return nil, errors.New("host failure") }, true
 	case "failv":
-		return func(x interface{}) (interface{}, error) { h.add("failv", x); return -1, errors.New("host failure with a value") }, true
+		return func(x interface{}) (interface{}, error) {
+			h.add("failv", x)
+			return -1, errors.New("host failure with a value")
+		}, true
 	case "recs":
 		return func(xs ...interface{}) (interface{}, error) {
 			h.add("recs", xs...)
